@@ -9,7 +9,7 @@ import operator
 from fractions import Fraction as F
 
 from .. import oracle as O
-from ..core import Stats, pmap
+from ..core import Stats, guarded, pmap
 from ..world import World
 from . import amounts as A
 
@@ -27,6 +27,7 @@ def number(code):
     return O.dec(code)
 
 
+@guarded('C03')
 def run_mixed(w, s1, s2, opname):
     """quantities of two different types: + - < <= > >= raise
     IncompatibleUnitsError, == is False, != is True, sum raises."""
@@ -53,6 +54,7 @@ def run_mixed(w, s1, s2, opname):
     return [(f'C03:mixed:{opname}', f"{what} produced {res!r}")]
 
 
+@guarded('C03')
 def run_number(w, s, k, opname, order):
     """quantity (op) plain number: TypeError, == False, != True."""
     u = w.units[s]
@@ -98,6 +100,7 @@ def chk_q(w, res, cls, s, want, what, sig):
     return []
 
 
+@guarded('C03')
 def run_pair(w, tname, s1, a1, s2, a2, st=None):
     """a+b, a-b, b+a, neg, abs, sum; result in left unit; value exact."""
     Q = w.q
@@ -153,6 +156,7 @@ def run_pair(w, tname, s1, a1, s2, a2, st=None):
     return out
 
 
+@guarded('C03')
 def run_triple(w, tname, s, a):
     """associativity by value over three quantities"""
     cls = w.types[tname]
@@ -173,6 +177,7 @@ def run_triple(w, tname, s, a):
     return out
 
 
+@guarded('C03')
 def run_temp(w, s1, a1, s2, a2):
     """table-converted type: result in left unit, value a + conv(b)"""
     cls = w.types['Temperature']
